@@ -31,7 +31,7 @@ func defaultEnv() *Env {
 	if repo == "" {
 		repo = "/repo"
 	}
-	env := &Env{Repo: repo, Verif: verif, Build: filepath.Join(verif, "build"), Workers: 16, Timeout: 30 * time.Minute, Samples: 6, SolverMs: 60000}
+	env := &Env{Repo: repo, Verif: verif, Build: filepath.Join(verif, "build"), Workers: 16, Timeout: 30 * time.Minute, Samples: 6, SolverMs: 20000}
 	if w := os.Getenv("VERIF_WORKERS"); w != "" {
 		env.Workers, _ = strconv.Atoi(w)
 	}
@@ -192,7 +192,11 @@ func runCheck(env *Env, id, tier string, spec *CheckSpec, doReplay bool) int {
 		n, _ := strconv.Atoi(t)
 		env.Timeout = time.Duration(n) * time.Second
 	}
-	evPath := filepath.Join(env.Verif, "evidence", id+".json")
+	evDir := filepath.Join(env.Verif, "evidence")
+	if d := os.Getenv("VERIF_EVIDENCE_DIR"); d != "" {
+		evDir = d // used when the checks are pointed at a scratch copy with a seeded change
+	}
+	evPath := filepath.Join(evDir, id+".json")
 	os.Remove(evPath)
 
 	ld, err := loadTargets(env, spec.Jobs)
@@ -374,7 +378,11 @@ func runCheck(env *Env, id, tier string, spec *CheckSpec, doReplay bool) int {
 	findings := loadFindings(env)
 	exit := 0
 	nviol := 0
-	os.MkdirAll(filepath.Join(env.Verif, "replays"), 0o755)
+	replayDir := filepath.Join(env.Verif, "replays")
+	if d := os.Getenv("VERIF_EVIDENCE_DIR"); d != "" {
+		replayDir = d
+	}
+	os.MkdirAll(replayDir, 0o755)
 	for _, k := range violOrder {
 		rec := confirmed[k]
 		if rec == nil {
@@ -394,7 +402,7 @@ func runCheck(env *Env, id, tier string, spec *CheckSpec, doReplay bool) int {
 			continue
 		}
 		nviol++
-		path := filepath.Join(env.Verif, "replays", fmt.Sprintf("%s-%s-%s.json", id, k.entry, sanitize(k.label)))
+		path := filepath.Join(replayDir, fmt.Sprintf("%s-%s-%s.json", id, k.entry, sanitize(k.label)))
 		writeJSON(path, []*PathRecord{rec})
 		fmt.Printf("VIOLATION property=%s replay=%s\n", id, path)
 		fmt.Printf("  entry=%s cfg=%d assert=%q inputs=%s (%d paths)\n", k.entry, rec.Cfg, k.label, fmtNondet(rec.Nondet), viols[k].Count)
